@@ -1,4 +1,4 @@
-import Gaftools.Props.C11
+import Gaftools.Props.C11b
 #print axioms Gaftools.C11.done_complete
 #print axioms Gaftools.C11.done_output
 #print axioms Gaftools.C11.sortNat_sorted
@@ -8,3 +8,5 @@ import Gaftools.Props.C11
 #print axioms Gaftools.C11.quiescent_terminates
 #print axioms Gaftools.C11.worker_step_decreases
 #print axioms Gaftools.C11.groups_flatten
+#print axioms Gaftools.C11.file_output_in_order
+#print axioms Gaftools.C11.file_output_cores_independent
